@@ -368,7 +368,21 @@ impl Debug for FixedSchema {
 }
 
 impl FixedSchema {
-    fn serialize_to_map<S>(&self, mut map: S::SerializeMap) -> Result<S::SerializeMap, S::Error>
+    fn serialize_to_map<S>(&self, map: S::SerializeMap) -> Result<S::SerializeMap, S::Error>
+    where
+        S: Serializer,
+    {
+        self.serialize_to_map_without::<S>(map, &[])
+    }
+
+    /// Serialize the fixed schema, skipping any custom attributes in `skipped_attributes`.
+    ///
+    /// This is used by logical types that write some of these attributes themselves.
+    fn serialize_to_map_without<S>(
+        &self,
+        mut map: S::SerializeMap,
+        skipped_attributes: &[&str],
+    ) -> Result<S::SerializeMap, S::Error>
     where
         S: Serializer,
     {
@@ -387,7 +401,9 @@ impl FixedSchema {
         }
 
         for attr in &self.attributes {
-            map.serialize_entry(attr.0, attr.1)?;
+            if !skipped_attributes.contains(&attr.0.as_str()) {
+                map.serialize_entry(attr.0, attr.1)?;
+            }
         }
 
         Ok(map)
@@ -962,7 +978,9 @@ impl Serialize for Schema {
                 let mut map = serializer.serialize_map(None)?;
                 match inner {
                     InnerDecimalSchema::Fixed(fixed_schema) => {
-                        map = fixed_schema.serialize_to_map::<S>(map)?;
+                        // `scale` and `precision` are written below
+                        map = fixed_schema
+                            .serialize_to_map_without::<S>(map, &["scale", "precision"])?;
                     }
                     InnerDecimalSchema::Bytes => {
                         map.serialize_entry("type", "bytes")?;
